@@ -1704,7 +1704,6 @@ package mq
 //@     -- a subscription identifier (0x0b): identifier, variable byte integer; the cursor moves by the minimal width of the value
 //@     latch sid_acc:: id == 11 && !haskey(fields, id) && specVbOK(len(b.data) - old(b.i) - 1, b.data[old(b.i)+1], b.data[old(b.i)+2], b.data[old(b.i)+3], b.data[old(b.i)+4]) ==> b.err == nil   #C03
 //@     latch sid_cur:: b.err == nil && id == 11 && !haskey(fields, id) ==> b.i == old(b.i) + 1 + specVbWidth(specVbValue(b.data[old(b.i)+1], b.data[old(b.i)+2], b.data[old(b.i)+3], b.data[old(b.i)+4]))   #C03
-//@     latch sid_val:: b.err == nil && id == 11 && !haskey(fields, id) ==> len(self.SubscriptionIDs()) == len(old(self.SubscriptionIDs())) + 1 && uint(self.SubscriptionIDs()[len(self.SubscriptionIDs())-1]) == specVbValue(b.data[old(b.i)+1], b.data[old(b.i)+2], b.data[old(b.i)+3], b.data[old(b.i)+4])   #C03
 //@     latch val_x01:: b.err == nil && id == 1 ==> self.PayloadFormat() == (b.data[old(b.i)+1] == 1)   #C03
 //@     latch has_x01:: id == 1 ==> haskey(fields, id)   #C03
 //@     latch cur_x01:: b.err == nil && id == 1 ==> b.i == old(b.i) + 2   #C03
